@@ -245,6 +245,9 @@ class DelayEval:
 
     def _call(self, e: ast.Call, env, fn, offset, params_ext) -> AV:
         name = pf.dotted(e.func) or ''
+        if name == self.delay_fn and not e.args and any(k.arg == 'tries' for k in e.keywords):
+            # delay_ms_for_try(tries=n, ...) is delay_ms_for_try(n, ...)
+            e = ast.copy_location(ast.Call(func=e.func, args=[k.value for k in e.keywords if k.arg == 'tries'], keywords=[k for k in e.keywords if k.arg != 'tries']), e)
         if name == self.delay_fn:
             known = ('base_delay_ms', 'max_delay_ms')
             beyond = len(e.args) > 3 or any(k.arg not in known for k in e.keywords)
@@ -576,6 +579,9 @@ class LosslessFlow:
         if isinstance(e, ast.Attribute):
             return self.classify(e.value, fn, bound) if not isinstance(e.value, ast.Name) else self._name_or_obj(e.value, fn, bound)
         if isinstance(e, ast.Subscript):
+            if isinstance(e.slice, ast.Slice) and e.slice.upper is None and e.slice.step is None and (
+                    e.slice.lower is None or (isinstance(e.slice.lower, ast.Constant) and e.slice.lower.value == 0)):
+                return self.classify(e.value, fn, bound)  # x[:] / x[0:] is a copy of the whole value
             if isinstance(e.slice, ast.Slice) or (isinstance(e.slice, ast.Tuple) and any(isinstance(x, ast.Slice) for x in e.slice.elts)):
                 return Flow(LOSSY, f'`{pf.nsrc(e)}` keeps only a slice of the value (truncation)')
             return self.classify(e.value, fn, bound)
